@@ -42,7 +42,7 @@ class Resp:
 
 
 def make_payload(tape, rng, big_ok=True):
-    kind = tape.weighted([(3, 'text'), (2, 'empty'), (2, 'binary'), (1, 'big'), (1, 'one')], 'payload.kind')
+    kind = tape.weighted([(12, 'text'), (8, 'empty'), (8, 'binary'), (4, 'big'), (4, 'one'), (1 if big_ok else 0, 'huge-compressible')], 'payload.kind')
     if kind == 'empty':
         return b''
     if kind == 'one':
@@ -50,6 +50,11 @@ def make_payload(tape, rng, big_ok=True):
     if kind == 'text':
         n = 1 + tape.draw(4, 'payload.rep')
         return TEXT * n
+    if kind == 'huge-compressible':
+        # compresses better than 64:1 - a small piece of the coded stream inflates to several hundred KiB
+        n = tape.choice((300_000, 600_000, 1_100_000), 'payload.huge')
+        unit = tape.choice((b'\0', b'abcdefgh', b'<tr><td>0</td></tr>\n'), 'payload.huge.unit')
+        return (unit * (n // len(unit) + 1))[:n]
     if kind == 'binary':
         n = 1 + tape.draw(300, 'payload.len')
         return bytes(rng.randrange(256) for _ in range(n))
